@@ -10,11 +10,40 @@ namespace etl {
 
 namespace detail {
 
+/// The unsigned type gcd/lcm compute in. etl::make_unsigned and etl::is_signed
+/// only know the standard integer types (make_unsigned falls back to
+/// unsigned long long), so the 128-bit extended types are named explicitly.
+template <typename T>
+struct gcd_unsigned {
+    using type = etl::make_unsigned_t<T>;
+};
+
+template <typename T>
+inline constexpr bool gcd_is_signed = etl::is_signed_v<T>;
+
+#if defined(__SIZEOF_INT128__)
+__extension__ typedef __int128 gcd_int128_t;
+__extension__ typedef unsigned __int128 gcd_uint128_t;
+
+template <>
+struct gcd_unsigned<gcd_int128_t> {
+    using type = gcd_uint128_t;
+};
+
+template <>
+struct gcd_unsigned<gcd_uint128_t> {
+    using type = gcd_uint128_t;
+};
+
+template <>
+inline constexpr bool gcd_is_signed<gcd_int128_t> = true;
+#endif
+
 /// |v| as a value of the unsigned type U (also for the most negative value).
 template <typename U, typename T>
 [[nodiscard]] constexpr auto gcd_abs(T v) noexcept -> U
 {
-    if constexpr (etl::is_signed_v<T>) {
+    if constexpr (etl::detail::gcd_is_signed<T>) {
         if (v < T(0)) {
             return static_cast<U>(U(0) - static_cast<U>(v));
         }
@@ -34,7 +63,7 @@ template <typename M, typename N>
 [[nodiscard]] constexpr auto gcd(M m, N n) noexcept -> etl::common_type_t<M, N>
 {
     using R = etl::common_type_t<M, N>;
-    using U = etl::make_unsigned_t<R>;
+    using U = typename etl::detail::gcd_unsigned<R>::type;
 
     auto a = etl::detail::gcd_abs<U>(m);
     auto b = etl::detail::gcd_abs<U>(n);
